@@ -533,7 +533,8 @@ def check_C15(pid, tier, seed, verdict):
 def check_C18(pid, tier, seed, verdict):
     thorough = tier == "thorough"
     g = V.run_gen(pid, "MC_CertReload.tla", "MC_CertReload.cfg")
-    mcs = [g]
+    mcs = [g, mc_must_hold(pid, verdict, "MC_CertReloadSteps.tla", "MC_CertReloadSteps.cfg", workers=2),
+           mc_must_fail(pid, "MC_CertReloadSteps.tla", "MC_CertReloadSteps_dev.cfg", workers=2)]
     withr = [s for s in g["scenarios"] if sum(1 for x in s["steps"] if x["a"] == "reload") >= 1]
     rest = [s for s in g["scenarios"] if s not in withr] if thorough else []
     scs = V.sample(withr, None if thorough else 700, seed) + V.sample([s for s in g["scenarios"] if all(x["a"] != "reload" for x in s["steps"])], 2000 if thorough else 60, seed)
@@ -544,13 +545,17 @@ def check_C18(pid, tier, seed, verdict):
     verdict.add_trace_result("cert", res, run)
     cnt = res["cnt"]
     V.log(f"[{pid}] trace: {cnt['scn']} histories, {cnt['write']} file replacements, {cnt['reload']} reloads, {cnt['obs']} observations "
-          f"(handshake + info + counters + old session), bad={len(res['bad'])}")
+          f"(handshake + running server + info + counters + old session), {cnt['race']} overlapping-reload runs, bad={len(res['bad'])}")
     cov = _cov(mcs, cnt["scn"], cnt["nontrivial"],
                "scenario = one TLC-enumerated history of 4 steps over {replace the certificate file, replace the key file} x "
                "{pair A, pair B, expired C, truncated A/B, garbage, missing} and reload (28561 histories; quick replays 700 of "
                "those that contain a reload plus 60 others), executed on a real CertReloader with real files; after EVERY step a "
                "fresh in-memory TLS handshake against get_acceptor() with a client that verifies the handshake signature, "
-               "get_cert_info / get_reload_count / get_last_reload, and a ping over a TLS session established at the start; "
+               "a TCP handshake with a running Server (new_with_reloadable_tls + listen: the first connection it accepts after the "
+               "step), get_cert_info / get_reload_count / get_last_reload, and a ping over a TLS session established at the start; "
+               "expired certificates are concretised as expired for years or for one hour; plus runs of 400 (thorough: 2000) "
+               "reloads that overlap replacements of the certificate file by another thread (served leaf vs reported information "
+               "vs expiry after every successful reload); "
                "non-trivial = histories in which at least one reload was judged", V.sample_descrs(run["descr"]), True,
                dict(behaviours_generated=len(g["scenarios"]), behaviours_replayed=len(scs), trace_events=res["lines"], event_counts=cnt))
     return cov, ["truncation is concretised at 5 classes of cut positions (header line, early, middle, last byte before END, "
